@@ -259,13 +259,17 @@ class TLSMemoryBIOProtocol(ProtocolWrapper):
         Read any bytes out of the send BIO and write them to the underlying
         transport.
         """
-        try:
-            bytes = self._tlsConnection.bio_read(2**15)
-        except WantReadError:
-            # There may be nothing in the send BIO right now.
-            pass
-        else:
+        chunkSize = 2**15
+        while True:
+            try:
+                bytes = self._tlsConnection.bio_read(chunkSize)
+            except WantReadError:
+                # There may be nothing (more) in the send BIO right now.
+                return
             self.transport.write(bytes)
+            if len(bytes) < chunkSize:
+                # A short read means the send BIO has been drained.
+                return
 
     def _flushReceiveBIO(self):
         """
